@@ -35,6 +35,7 @@ def templates(rng):
     s2 = (rng.choice([1, 2, 3]), rng.choice([1, 2, 3]))
     a2, b2 = arr(rng, s2), arr(rng, s2)
     v3, w3 = arr(rng, (3,)), arr(rng, (3,))
+    a23 = onp.arange(6.0).reshape(2, 3) + arr(rng, (2, 3)) * 10.0
     T += [("concatenate-0", lambda m, x: m.concatenate([x, b2], axis=0), a2),
           ("concatenate-1", lambda m, x: m.concatenate((b2, x), axis=1), a2),
           ("concatenate--1", lambda m, x: m.concatenate((b2, x, x), axis=-1), a2),
@@ -68,6 +69,17 @@ def templates(rng):
           ("c_", lambda m, x: m.c_[x, w3], v3),
           ("reshape-method", lambda m, x: x.reshape(-1), a2),
           ("reshape-method-tuple", lambda m, x: x.reshape((s2[1], s2[0])), a2),
+          ("reshape-method-ints-order-F", lambda m, x: x.reshape(3, 2, order="F"), a23),
+          ("reshape-method-tuple-order-F", lambda m, x: x.reshape((3, 2), order="F"), a23),
+          ("reshape-function-order-F", lambda m, x: m.reshape(x, (3, 2), order="F"), a23),
+          ("reshape-method-ints-order-C", lambda m, x: x.reshape(3, 2, order="C"), a23),
+          ("ravel-order-F", lambda m, x: m.ravel(x, order="F"), a23),
+          ("ravel-method-order-F", lambda m, x: x.ravel(order="F"), a23),
+          ("flatten-method-order-F", lambda m, x: x.flatten("F"), a23),
+          ("transpose-method-tuple", lambda m, x: x.transpose((1, 0)), a2),
+          ("sum-method-positional-axis", lambda m, x: x.sum(0), a2),
+          ("clip-method-keywords", lambda m, x: x.clip(min=-1.0, max=2.0), a2, True),
+          ("astype-method", lambda m, x: x.astype(float), a2),
           ("ravel", lambda m, x: m.ravel(x), a2),
           ("transpose-T", lambda m, x: x.T, a2),
           ("sum-axis", lambda m, x: m.sum(x, axis=-1, keepdims=True), a2),
@@ -197,6 +209,8 @@ def type_queries(out):
         r = [bool(ab.isinstance(v, c)) for _, c in classes]
         t = ab.type(v)
         r += [t is float, t is onp.ndarray, t is onp.float64, t is tuple, t is list, t is dict]
+        # Python's own isinstance against autograd's container classes (their metaclasses answer for traced containers)
+        r += [isinstance(v, ab.tuple), isinstance(v, ab.list), isinstance(v, ab.dict)]
         return r
 
     def plain_probe(v):
@@ -204,6 +218,7 @@ def type_queries(out):
              for _, c in classes]
         t = type(v)
         r += [t is float, t is onp.ndarray, t is onp.float64, t is tuple, t is list, t is dict]
+        r += [isinstance(v, tuple), isinstance(v, list), isinstance(v, dict)]
         return r
 
     values = [("float", 1.5), ("array1", onp.array([1.0, 2.0])), ("array2", onp.array([[1.0, 2.0], [3.0, 4.0]])),
@@ -262,7 +277,8 @@ def type_queries(out):
                     seen = [seen[0][0]]
                 if not seen or seen[0] != want:
                     names = [n for n, _ in classes] + ["type is float", "type is ndarray", "type is float64", "type is tuple",
-                                                       "type is list", "type is dict"]
+                                                       "type is list", "type is dict", "builtin isinstance(v, ag tuple)", "builtin isinstance(v, ag list)",
+                                                       "builtin isinstance(v, ag dict)"]
                     diff = [names[i] for i in range(len(want)) if seen and seen[0][i] != want[i]]
                     out["bad"].append({"oracle": "type-queries", "case": name, "modes": list(modes),
                                        "problems": ["autograd's isinstance/type answers differently under tracing for: %s" % diff],
